@@ -2007,6 +2007,12 @@ impl<W: std::io::Write + std::io::Seek> Encoder<W> {
             pcm_frames: frame.pcm_frames() as u64,
             bytes_so_far: self.writer.count,
         });
+        // a frame never holds more than one block (more can only be handed
+        // over when a failed write left several blocks in a front end's buffer)
+        if frame.pcm_frames() > usize::from(self.blocks.streaminfo().maximum_block_size) {
+            return Err(Error::InvalidBlockSize);
+        }
+
         // drop in a new seekpoint
         self.seekpoints.push(EncoderSeekPoint {
             sample_offset: self.samples_written,
